@@ -292,13 +292,23 @@ class ProcWorld:
             pu = parent.utils
             for g in ("_tty_lock", "_cell_size_lock", "_cell_size_cache", "_queries_enabled",
                       "_swap_win_size", "_query_timeout"):
-                setattr(child_utils, g, getattr(pu, g))
+                val = getattr(pu, g)
+                if isinstance(val, simworld.SimRLock):
+                    # a thread-level lock is memory of one process: the forked child has a copy
+                    # of its own (process-shared locks and arrays stay shared)
+                    val = simworld.SimRLock(simworld.current_kernel, val.name + "@child")
+                setattr(child_utils, g, val)
         child = Proc(len(self.procs), child_utils, parent, po._method)
         self.procs.append(child)
         self.k.ctx.extra["procs"] = len(self.procs)
 
         def child_main():
             self.current_proc[k.current.tid] = child
+            # (what travels to the child with the Process object: a thread-level lock arrives
+            # as a lock of the child's own, whatever the start method)
+            lk = getattr(po, "_tty_lock", None)
+            if isinstance(lk, simworld.SimRLock):
+                po._tty_lock = simworld.SimRLock(simworld.current_kernel, lk.name + "@child")
             # what Process.run is after the library patched it (in the child)
             run = child.utils._installed_run
             if run is simworld._PROC_RUN:
